@@ -114,7 +114,7 @@ def import_git_blob(
     for ptree in parent_bzr_trees:
         intertree = InterTree.get(ptree, base_bzr_tree)
         try:
-            ppath = intertree.find_source_paths(decoded_path, recurse="none")
+            ppath = intertree.find_source_path(decoded_path, recurse="none")
         except NoSuchFile:
             continue
         if ppath is None:
@@ -591,6 +591,11 @@ def import_git_commit(
         base_bzr_inventory = None
     else:
         base_bzr_inventory = base_bzr_tree.root_inventory
+        if not repo._format.supports_chks:
+            # Non-CHK repositories apply the delta to the basis inventory in
+            # place; base_bzr_tree lives in trees_cache and has to keep
+            # describing the parent revision for its other children.
+            base_bzr_inventory = base_bzr_inventory.copy()
     inv_delta = InventoryDelta(inv_delta)
     rev.inventory_sha1, inv = repo.add_inventory_by_delta(
         basis_id, inv_delta, rev.revision_id, rev.parent_ids, base_bzr_inventory
